@@ -14,7 +14,7 @@ K_RELIN = ("under an injected input value (evaluate_on / input_value=) a relativ
            "(Context.apply -> evaluate(prefix+link) does not forward input_value): evaluate_on(100, 'add-1/add-~X~add-10~E') fails/gives a "
            "value computed from None instead of 212")
 
-INPUTS = [10, 2.5, "in", [1, 2], {"a": 1}]
+INPUTS = [10, 2.5, "in", [1, 2], 0, "", [], False, {"a": 1}, 0.0, {}]
 EXTRAS = [[5], ["e", "f"], {"y": 7}, {"s": "S", "t": "TT"}, {"zzz": 1}, ["3", "4.5", "t"]]
 
 
@@ -89,7 +89,7 @@ def bounded(tier, seed):
                               "file names" % (tier, 3 if tier == "quick" else 4, 2 if tier == "quick" else 3), len(qs), True))
     iq = input_queries(tier)
     n = 0
-    for inp in (INPUTS if tier != "quick" else INPUTS[:4]):
+    for inp in (INPUTS if tier != "quick" else INPUTS[:8]):
         for q in (iq if (tier != "quick" or inp == 10) else iq[::3]):
             check(col, q, input_value=inp)
             n += 1
@@ -108,6 +108,10 @@ def bounded(tier, seed):
                 check(col, q, input_value=10, extra=ex)
                 n += 1
     standins.append(M.standin("evaluate(q, extra_parameters=e) vs Sem(q, extra=e), also with input", "1-2 action queries x extras %r" % (EXTRAS,), n, True))
+    n = typing_contract(col)
+    standins.append(M.standin("command_metadata_from_callable / argument_parser_from_command_metadata: the declared type of a parameter is its "
+                              "annotation, else the type of its default; texts are converted accordingly",
+                              "every (annotation in none/int/float/str/bool/list) x (default in none/None/1/1.5/'s'/True/[1]) x 4 argument texts", n, True))
     nr = 300 if tier == "quick" else 6000
     for q in M.random_queries(seed, nr):
         check(col, q)
@@ -119,6 +123,55 @@ def bounded(tier, seed):
                      "failure iff failure; repeated with injected inputs and extra positional/keyword parameters; distinct = distinct successful "
                      "result values; wall %.0fs" % (len(M.VOCAB), time.time() - t0),
                 standins=standins, violations=col.violations())
+
+
+TYPING = "arg['type'] is the annotation's name, else the type name of a non-None default, else None; parse converts the text accordingly"
+
+
+def typing_contract(col):
+    """Run-time contract of liquer.commands.command_metadata_from_callable + argument parsers (bounded stand-in for the 'according to the
+    function's annotations and defaults' clause of C01)."""
+    from liquer.commands import command_metadata_from_callable, argument_parser_from_command_metadata
+    anns = [None, "int", "float", "str", "bool", "list"]
+    defaults = ["<none>", None, 1, 1.5, "s", True, [1]]
+    conv = dict(int=int, float=float, str=str, bool=lambda t: t.lower() in ("y", "yes", "t", "true"), list=lambda t: [t])
+    n = 0
+    for a in anns:
+        for d in defaults:
+            src = "def f(state, p%s%s):\n    return p\n" % ("" if a is None else ": " + a, "" if d == "<none>" else " = %r" % (d,))
+            ns = {}
+            exec(src, ns)
+            try:
+                md = command_metadata_from_callable(ns["f"])
+                arg = md.arguments[0]
+            except Exception as e:
+                col.add(TYPING, "liquer.commands.command_metadata_from_callable", source=src, error=repr(e))
+                continue
+            expected = a if a is not None else (type(d).__name__ if d not in ("<none>", None) or d is False else None)
+            if d is None or (isinstance(d, str) and d == "<none>"):
+                expected = a
+            col.evaluations += 1
+            n += 1
+            if arg.get("type") != expected:
+                col.add(TYPING, "liquer.commands.command_metadata_from_callable", source=src, expected_type=expected, observed_type=arg.get("type"))
+                continue
+            if expected in ("int", "float", "str", "bool"):
+                ap = argument_parser_from_command_metadata(md)
+                for text in ["2", "1.5", "true", "x"]:
+                    try:
+                        want = ("ok", conv[expected](text))
+                    except Exception:
+                        want = ("error", None)
+                    try:
+                        got_v, rest = ap.parse_meta(md.arguments, [text])[0], None
+                        got = ("ok", got_v[0])
+                    except Exception:
+                        got = ("error", None)
+                    col.evaluations += 1
+                    n += 1
+                    if want[0] != got[0] or (want[0] == "ok" and (want[1] != got[1] or type(want[1]) is not type(got[1]))):
+                        col.add(TYPING, "liquer.commands.argument_parser_from_command_metadata", source=src, text=text, expected=repr(want), observed=repr(got))
+    return n
 
 
 def replay(doc):
